@@ -3,6 +3,7 @@ CONSTANT NtCVersions = {9, 10, 11, 12, 13, 14, 15, 16, 17, 18, 19, 20, 21}
 CONSTANT DMQVersions = {1}
 CONSTANT ExtraIds = {11, 99}
 CONSTANT Design = "legacy"
+CONSTANT LocalOptSpace = "node-to-node"
 INIT Init
 NEXT Next
 INVARIANT TypeOK
@@ -11,3 +12,4 @@ INVARIANT InitiatorOnlyNeverDeliversRequest
 INVARIANT ResponderOnlyNeverDeliversResponse
 INVARIANT StartedIffEnabled
 INVARIANT EnabledIsReachable
+INVARIANT LocalOptInOnlyAffectsOwnInitiator
